@@ -56,7 +56,7 @@ where
     pub fn to_string(&self) -> String {
         let mut result = "".to_string();
         for i in 0..self.size() {
-            let mut index = self.start as i32 - i as i32;
+            let mut index = self.start as i32 - (i + 1) as i32;
             if index < 0 {
                 index += self.capacity as i32;
             }
